@@ -10,7 +10,7 @@ get I <path>                    -> I none | I handler N mws a,b [ptr H | segs k 
 match I reg|struct <prefix> <path>   (one fresh mount)  -> I 0 | I 1 ptr H | I 1 segs k t…
 tok I <ptr>                     -> I segs k t…          (`json_pointer::parse`)
 twin I <kind> <blocking> <nmw> <bfmt> <body> <j><b><s><r> <ok|err> <code> <order> <voff> <qfmt> <query> <id>
-                                -> I <ok|rej N|fail|-> exec <inline|offreader>
+                                -> I <ok|rej N|fail|-> exec <inline|offreader> links <k>
    (order, view offset, query and id only steer the implementation run: the routes must agree whatever they are)
 ```
 Strings are hex of their UTF-8 bytes ("-" = empty). -/
@@ -126,7 +126,9 @@ def step (r : Router.Router) (ws : List String) : Router.Router × String :=
           | some d =>
             if !hintFor hints.toList d then "fail"
             else if cres = "ok" then "ok" else s!"rej {natOf ccode}"
-      (r, s!"{idx} {cls} exec {exec}")
+      -- how many of the `nmw` links are shown the caller's context (`Next::ctx()`)
+      let links := if natOf nmw = 0 then 0 else if Gen.handlerFacts.nextForwardsCtx then natOf nmw else 1
+      (r, s!"{idx} {cls} exec {exec} links {links}")
   | _ => (r, (ws.getD 1 "?") ++ " bad-op")
 
 end Repe.Driver.Router
